@@ -86,7 +86,6 @@ QEdges(in) == LET f == F(in)
               IN  {<<f[e[1]], f[e[2]]>> : e \in {x \in es : f[x[1]] # f[x[2]]}}
 
 \* the graph the DOT is drawn from
-FinalNodes(in) == IF Merged(in) THEN QNodes(in) ELSE Nodes(in)
 FinalEdges(in) == IF Merged(in) THEN QEdges(in) ELSE Edges(in)
 
 Included(in, name) == in.filter = <<>> \/ \E i \in DOMAIN in.filter : Contains(name, in.filter[i])
@@ -142,7 +141,7 @@ DotDiff(in, d) ==
       (IF Cardinality(ids) # Len(d.nodes) THEN {Item("dot-node-id-reused", "")} ELSE {}) \cup
       (IF FreeMerge(in) THEN {} ELSE
          \* ... and only edges of the graph (an edge to a filtered-out or external node must be dropped, not re-attached)
-         {Item("dot-edge-not-in-graph", Show(e)) :
+         {Item("dot-edge-not-in-graph", Show(<<nameOf[idxOf(e[1])], nameOf[idxOf(e[2])]>>)) :
             e \in {x \in des : x[1] \in ids /\ x[2] \in ids /\ known[idxOf(x[1])] /\ known[idxOf(x[2])]
                                /\ <<nameOf[idxOf(x[1])], nameOf[idxOf(x[2])]>> \notin fe}} \cup
          \* ... and all of them: the DOT is the graph restricted to the displayed nodes (see Decision_DotInduced)
